@@ -134,7 +134,8 @@ Definition CplxOK (o : obj) : Prop :=
     goodNE (map fst es, ss) /\
     (forall k, In (KCplx (Nat.iter k rotT (map fst es, ss))) (o_keys o)) /\
     (forall key, In key (o_keys o) -> exists k, key = KCplx (Nat.iter k rotT (map fst es, ss))) /\
-    (exists cn, o_key o = KCplx cn /\ canon_T (map fst es, ss) = Some cn).
+    (exists cn, o_key o = KCplx cn /\ canon_T (map fst es, ss) = Some cn) /\
+    (forall x, In x (elem_ids es) -> In x (o_children o)).
 
 Definition ROK (st : state) : Prop :=
   KeysReg st /\ forall i o, live_obj (heap st) i o -> CplxOK o.
@@ -427,7 +428,7 @@ Proof.
           rewrite NS, (rot_record_spec _ _ Gd) in R2. subst cdict. apply dict_of_keys in Hy. destruct Hy as [Hy|[]].
           assert (Er : r2 = map (fun j => Nat.iter j rotT (map fst es, ss)) (seq 0 (nstr ss))) by congruence. subst r2.
           apply in_map_iff in Hy. destruct Hy as [j [<- _]]. eauto. }
-        split; [exact GN|]. split; [|split].
+        split; [exact GN|]. split; [|split; [|split; [|intros x Hx; exact Hx]]].
         -- intros k. right. apply in_map_iff.
            pose proof (full_loop_keys _ _ _ _ k GN ER') as Hin.
            apply in_map_iff in Hin. destruct Hin as [[kk vv] [E1 Hin]]. exists (kk, vv). cbn in E1. rewrite <- E1. auto.
@@ -496,6 +497,30 @@ Proof.
     rewrite Ey in Gy. rewrite (IH _ _ _ _ Gy H). rewrite iter_succ_r, <- Ey. reflexivity.
 Qed.
 
+Lemma elem_ids_app a b : elem_ids (a ++ b) = elem_ids a ++ elem_ids b.
+Proof. unfold elem_ids. apply flat_map_app. Qed.
+
+Lemma elem_ids_sub_firstn n es x : In x (elem_ids (firstn n es)) -> In x (elem_ids es).
+Proof. rewrite <- (firstn_skipn n es) at 2. rewrite elem_ids_app. intros H. apply in_or_app. left. exact H. Qed.
+Lemma elem_ids_sub_skipn n es x : In x (elem_ids (skipn n es)) -> In x (elem_ids es).
+Proof. rewrite <- (firstn_skipn n es) at 2. rewrite elem_ids_app. intros H. apply in_or_app. right. exact H. Qed.
+
+Lemma rot_elems_ids es x : In x (elem_ids (rot_elems es)) -> In x (elem_ids es).
+Proof.
+  unfold rot_elems. destruct (index_of sPlus (map fst es)) as [p|]; [|auto].
+  rewrite !elem_ids_app. intros H. apply in_app_or in H.
+  destruct H as [H|H]; [eapply elem_ids_sub_skipn; eauto|]. apply in_app_or in H.
+  destruct H as [H|H]; [cbn in H; destruct H | eapply elem_ids_sub_firstn; eauto].
+Qed.
+
+Lemma rot_n_ids t : forall es ss es' ss' x, rot_n t es ss = Ok (es', ss') -> In x (elem_ids es') -> In x (elem_ids es).
+Proof.
+  induction t as [|t IH]; intros es ss es' ss' x H Hx; cbn [rot_n] in H.
+  - injection H as <- <-. exact Hx.
+  - destruct (rotate_complex_once (map fst es) ss) as [rr|]; cbn [rbind] in H; [|discriminate].
+    apply rot_elems_ids. eapply IH; eauto.
+Qed.
+
 Lemma rok_set_turns st i v : ROK st -> ROK (fst (set_turns st i v)).
 Proof.
   intros [K C]. unfold set_turns. destruct (hget (heap st) i) as [o|] eqn:E; [|split; assumption].
@@ -513,8 +538,9 @@ Proof.
     + intros j x k Hl Hk. apply G in Hl. destruct Hl as [Hl|[-> [-> Hl]]]; [apply (K j x k Hl Hk) | apply (K i o k Hl Hk)].
     + intros j x Hl. apply G in Hl. destruct Hl as [Hl|[-> [-> Hl]]]; [apply (C j x Hl)|].
       intros es2 ss2 t2 E2. cbn in E2. injection E2 as <- <- _.
-      destruct (C i o Hl es ss t Ed) as [GN [Keys [KeysR [cn [Ek Ecn]]]]]. pose proof GN as [Gd _].
-      rewrite (rot_n_spec _ _ _ _ _ Gd ER). split; [apply iter_rotT_goodNE; exact GN|]. split; [|split].
+      destruct (C i o Hl es ss t Ed) as [GN [Keys [KeysR [[cn [Ek Ecn]] Hids]]]]. pose proof GN as [Gd _].
+      rewrite (rot_n_spec _ _ _ _ _ Gd ER). split; [apply iter_rotT_goodNE; exact GN|]. split; [|split; [|split]].
+      4:{ intros x Hx. cbn [o_children o' with_data]. apply Hids. eapply rot_n_ids; eauto. }
       * intros k. rewrite <- C02.iter_add. apply Keys.
       * intros key Hk. cbn [o_keys o' with_data] in Hk. destruct (KeysR key Hk) as [k ->].
         set (n := nstr ss). set (tt := Z.to_nat _).
